@@ -106,6 +106,19 @@ type outcome struct {
 var panicMu sync.Mutex
 var panicLog = map[string]int{}
 
+func notePanic(what string, r interface{}) {
+	panicMu.Lock()
+	defer panicMu.Unlock()
+	panicLog[what+" :: "+fmt.Sprint(r)]++
+	if p := os.Getenv("VERIF_C02_PANICLOG"); p != "" {
+		var b strings.Builder
+		for k, v := range panicLog {
+			fmt.Fprintf(&b, "%6d %s\n", v, k)
+		}
+		os.WriteFile(p, []byte(b.String()), 0o644)
+	}
+}
+
 func guarded(what string, f func() string) (res string) {
 	done := make(chan string, 1)
 	go func() {
@@ -115,16 +128,7 @@ func guarded(what string, f func() string) (res string) {
 					done <- "returns" // halted by the watchdog interrupt: the host stayed in control
 					return
 				}
-				panicMu.Lock()
-				panicLog[what+" :: "+fmt.Sprint(r)]++
-				if p := os.Getenv("VERIF_C02_PANICLOG"); p != "" {
-					var b strings.Builder
-					for k, v := range panicLog {
-						fmt.Fprintf(&b, "%6d %s\n", v, k)
-					}
-					os.WriteFile(p, []byte(b.String()), 0o644)
-				}
-				panicMu.Unlock()
+				notePanic(what, r)
 				done <- "gopanic"
 			}
 		}()
@@ -276,6 +280,8 @@ func implC02(line string) string {
 			vm.Set("newName", goArgs[k%len(goArgs)])
 			return "returns"
 		})
+	case "bridge":
+		return implBridge(f)
 	case "goapi2":
 		var k int
 		if len(f) != 2 {
@@ -427,6 +433,9 @@ func genC02(c *h.Ctx) {
 	}
 	genRecur(c)
 	genGoAPI2(c)
+	if os.Getenv("VERIF_C02_BRIDGE") != "" { // TEMPORARY gate: on by default once the fix-C02b stack is on /repo main
+		genBridge(c)
+	}
 	// stateful API sequences
 	for i := 0; i < c.N(4000, 150000); i++ {
 		c.Add("seq "+hex.EncodeToString([]byte(genSeq(r.Fork(), fns, 4+r.Intn(10)))), "sequence")
